@@ -455,6 +455,40 @@ def len_lower_bound(fn, bi):
     return lbs
 
 
+def len_upper_bound(fn, bi):
+    """upper bound on `len()` of each collection implied by the guards of block bi (is_empty true, a matched value,
+    comparisons of len with constants): {normalised collection: ub}"""
+    ubs = {}
+
+    def put(coll, v):
+        ubs[coll] = min(ubs.get(coll, v), v)
+    for c in fn.conds(bi):
+        a = strip_refs(c['a']) if c.get('a') is not None else None
+        if a is None:
+            continue
+        if c['kind'] == 'Is:is_empty' and c.get('truth') is True:
+            put(norm(a), 0)
+        elif (a[0] == 'call' and short(a[1]) == 'len' and a[2]) or a[0] == 'len':
+            coll = norm(a[2][0]) if a[0] == 'call' else norm(a[1])
+            if c['kind'] == 'value':
+                vs = [int(v) for v in c['values'] if str(v).isdigit()]
+                if vs and 'else' not in c['values']:
+                    put(coll, max(vs))
+            elif c.get('b') is not None and c['b'][0] == 'const' and c['b'][1] is not None:
+                try:
+                    k = int(float(c['b'][1]))
+                except (TypeError, ValueError):
+                    continue
+                kind, truth = c['kind'], c.get('truth')
+                if kind == 'Eq' and truth is True:
+                    put(coll, k)
+                elif (kind == 'Gt' and truth is False) or (kind == 'Le' and truth is True):
+                    put(coll, k)
+                elif (kind == 'Ge' and truth is False) or (kind == 'Lt' and truth is True):
+                    put(coll, k - 1)
+    return ubs
+
+
 # ---- per-player pairing of two expressions (zip / enumerate+index / array of pairs / constant indices)
 def _plain_iter_of(e):
     """field name F when e is iter/iter_mut/into_iter (any nesting, refs and unsizing casts ignored) over `.F`"""
@@ -563,3 +597,73 @@ def maps_num_actions(crate, cf):
         return is_num_actions(ret_expr(cf))
     except Exception:
         return False
+
+
+def running_max(f, l):
+    """local `l` is a running f64 maximum: `let mut m = it.next().unwrap()` (or -inf) and `m = f64::max(m, item)` with
+    `item` an element of the same iterator — returns the iterated source expression, else None"""
+    from facts import strip_refs, norm, short
+    vals = [strip_refs(v) for _, _, v in multi_def_values(f, l)]
+    me = ('var', l, f.local_name(l))
+    upd = [v for v in vals if v[0] == 'call' and short(v[1]) == 'max' and 'f64' in v[1] and len(v[2]) == 2 and any(strip_refs(a) == me for a in v[2])]
+    init = [v for v in vals if v not in upd]
+
+    def next_of(e_):
+        n_ = find_sub(e_, lambda s_: s_[0] == 'call' and short(s_[1]) == 'next')
+        return norm(strip_refs(n_[2][0])) if n_ is not None and n_[2] else None
+
+    def base(e_):
+        while e_ is not None and e_[0] == 'call' and short(e_[1]) in ('into_iter', 'by_ref') and e_[2]:
+            e_ = norm(strip_refs(e_[2][0]))
+        while e_ is not None and e_[0] == 'var':
+            vs = [strip_refs(v) for _, _, v in multi_def_values(f, e_[1])]
+            if len(vs) != 1 or vs[0] == e_:
+                break
+            e_ = norm(vs[0])
+            while e_[0] == 'call' and short(e_[1]) in ('into_iter', 'by_ref') and e_[2]:
+                e_ = norm(strip_refs(e_[2][0]))
+        return e_
+    if len(upd) != 1 or len(init) != 1:
+        return None
+    other = [a for a in upd[0][2] if strip_refs(a) != me]
+    i1 = next_of(other[0]) if other else None
+    if i1 is None:
+        return None
+    if init[0][0] == 'const' and 'NEG_INFINITY' in str(init[0]):
+        return base(i1)
+    i0 = next_of(init[0])
+    if i0 is not None and base(i0) == base(i1):
+        return base(i0)
+    return None
+
+
+def record_field_init(f, l, field, depth=0):
+    """value a field of record local `l` was constructed with — when that field is never written afterwards in `f`
+    (`let mut acc = Acc { exponent: p, total: 0.0 }; .. acc.total += ..` : `acc.exponent` is still `p`)"""
+    from facts import strip_refs, norm
+    if depth > 4:
+        return None
+    me = ('var', l, f.local_name(l))
+    for bi, st, pl, rhs in stores(f):
+        x = norm(pl)
+        while x[0] in ('field', 'index', 'cidx', 'downcast'):
+            if x[0] == 'field' and x[2] == field and norm(x[1]) == me:
+                return None
+            x = x[1]
+    ds = f.defs.get(l, [])
+    whole = [d for d in ds if d[0] != 'partial']
+    if len(whole) != 1 or whole[0][0] != 'assign':
+        return None
+    rv = whole[0][3]
+    if rv['r'] == 'agg' and rv['kind'].get('k') == 'adt':
+        e = f.rvalue_expr(rv, whole[0][1])
+        adt = f.crate.adts.get(e[1][4:].rsplit('::', 1)[0])
+        if adt and len(adt) == 1 and field in adt[0].get('fields', []):
+            i = adt[0]['fields'].index(field)
+            return e[2][i] if i < len(e[2]) else None
+        if str(field).isdigit() and int(field) < len(e[2]):
+            return e[2][int(field)]
+        return None
+    if rv['r'] == 'use' and rv['a'].get('o') in ('copy', 'move') and not rv['a']['pl']['p']:
+        return record_field_init(f, rv['a']['pl']['l'], field, depth + 1)
+    return None
